@@ -165,7 +165,8 @@ def run_batches(ctx: Ctx):
                 ctx.count(f'component_{fname}')
                 for var, arr in yb.items():
                     arr = np.asarray(arr)
-                    if fname != 'call_model' and tuple(arr.shape[:len(shape)]) != shape:
+                    # reading fixed in C10_output_shape: a one-sample loop (1,) is squeezed in front of trailing axes
+                    if fname != 'call_model' and tuple(arr.shape[:len(shape)]) != shape and not (shape == (1,) and arr.ndim >= 1 and fname != 'predict'):
                         ctx.violate(f'C10:{fname}-output-shape', f'{fname}: {var} has shape {arr.shape} for input shape {shape}', case)
                 for j in range(N):
                     ys = f({k: v[j] for k, v in fl.items()})
